@@ -138,18 +138,72 @@ def build(case):
     return mod, anomalies
 
 
-def call(mod, q, k, v, m):
-    tq, tk, tv = (torch.tensor(np.ascontiguousarray(x), dtype=torch.float64) for x in (q, k, v))
+def _relayout(t, kind):
+    """the same logical tensor as a view with another memory layout"""
+    if kind == "t" and t.dim() >= 2:  # transposed - contiguous - transposed back
+        return t.transpose(0, -1).contiguous().transpose(0, -1)
+    if kind == "off":  # interior of a larger buffer: storage offset, padded strides
+        big = torch.zeros([n + 2 for n in t.shape], dtype=t.dtype)
+        if t.dtype == torch.bool:
+            big.fill_(True)
+        else:
+            big.fill_(7.5)
+        inner = big[tuple(slice(1, n + 1) for n in t.shape)]
+        inner.copy_(t)
+        return inner
+    if kind == "step":  # every second element along the first and the last axis
+        big = torch.zeros([2 * n if i in (0, t.dim() - 1) else n for i, n in enumerate(t.shape)], dtype=t.dtype)
+        if t.dtype == torch.bool:
+            big.fill_(True)
+        else:
+            big.fill_(-7.5)
+        idx = tuple(slice(None, None, 2) if i in (0, t.dim() - 1) else slice(None) for i in range(t.dim()))
+        big[idx].copy_(t)
+        return big[idx]
+    return t
+
+
+def call(mod, q, k, v, m, alias=False, layout=None, kwargs=False, f32=False):
+    """alias: value IS the key tensor object (the data must be equal); layout: see _relayout; kwargs: keyword-argument
+    call; f32: float32 copy of the module and of the inputs (result converted back to float64)"""
+    dt = torch.float32 if f32 else torch.float64
+    tq, tk, tv = (torch.tensor(np.ascontiguousarray(x), dtype=dt) for x in (q, k, v))
     tm = None if m is None else torch.tensor(np.ascontiguousarray(m), dtype=torch.bool)
+    if layout:
+        tq, tk, tv = (_relayout(t, layout) for t in (tq, tk, tv))
+        tm = None if tm is None else _relayout(tm, layout)
+    if alias:
+        tv = tk
     with torch.no_grad():
-        return mod(tq, tk, tv, tm).numpy()
+        if kwargs:
+            out = mod(query=tq, key=tk, value=tv, mask=tm) if tm is not None else mod(value=tv, key=tk, query=tq)
+        else:
+            out = mod(*_args(mod, tq, tk, tv, tm))
+        return out.double().numpy()
+
+
+def _args(mod, tq, tk, tv, tm):
+    """positional arguments; a traced module has the arity it was traced with (no mask = three arguments)"""
+    if tm is None and isinstance(mod, torch.jit.TracedModule):
+        return (tq, tk, tv)
+    return (tq, tk, tv, tm)
 
 
 def build_entry(case):
-    """the module as the case enters it: eager, or compiled with torch.jit.script (case["script"])"""
+    """the module as the case enters it: eager, compiled with torch.jit.script (case["script"]), or traced the way the
+    library's own tests trace it, with size-1 example inputs of the right ranks (case["trace"])"""
     mod, anomalies = build(case)
     if case.get("script"):
         mod = torch.jit.script(mod)
+    elif case.get("trace"):
+        r = len(case["kshape"])
+        ex = [torch.zeros([1] * (r - 2) + [case["qshape"][-1]], dtype=torch.float64),
+              torch.zeros([1] * (r - 1) + [case["kshape"][-1]], dtype=torch.float64),
+              torch.zeros([1] * (r - 1) + [case["vshape"][-1]], dtype=torch.float64)]
+        if case.get("mshape") is not None:
+            ex.append(torch.ones([1] * len(case["mshape"]), dtype=torch.bool))
+        with torch.no_grad():
+            mod = torch.jit.trace(mod, tuple(ex))
     return mod, anomalies
 
 
@@ -161,7 +215,7 @@ def run_impl(case):
         return {"out": None, "exc": "build:" + exc_kind(e), "anomalies": []}
     q, k, v, m = arrays(case)
     try:
-        out = call(mod, q, k, v, m)
+        out = call(mod, q, k, v, m, alias=bool(case.get("alias_kv")), kwargs=bool(case.get("kwcall")))
     except Exception as e:
         return {"out": None, "exc": exc_kind(e), "anomalies": anomalies}
     return {"out": out, "exc": None, "anomalies": anomalies}
@@ -432,40 +486,98 @@ def relations(case, res, rng_seed=0):
         except Exception as e:
             fails.append(("broadcast-query", "raised " + exc_kind(e)))
     # (6) the result is a function of the arguments' current contents and the module's current parameters - not of
-    #     earlier calls: the same tensor objects are passed again after being overwritten in place, and after the
-    #     parameters were changed and restored (a module that memoises projections or weights by object identity fails)
+    #     earlier calls: the same tensor objects (query, key, value AND mask) are passed again after being overwritten in
+    #     place, and after the parameters were changed and restored (a module that memoises projections, scores, weights
+    #     or the complemented mask by object identity fails).  Every flavour and every entry point (eager, scripted,
+    #     traced) goes through here.
     try:
         tq, tk, tv = (torch.tensor(np.ascontiguousarray(x), dtype=torch.float64) for x in (q, k, v))
         tm = None if m is None else torch.tensor(np.ascontiguousarray(m), dtype=torch.bool)
         with torch.no_grad():
-            first = mod(tq, tk, tv, tm).numpy()
+            first = mod(*_args(mod, tq, tk, tv, tm)).numpy()
             same(first, "repeat-call")
             k3 = np.where(kept_k[..., None], -k, k) if kept_k.any() else -k
             v3 = v + 1.0
+            q3 = q if case.get("big") else 0.5 * q + 0.25
+            m3 = m
+            if m is not None:
+                ma = axis - (len(eshape) - m.ndim)
+                if ma >= 0 and m.shape[ma] == k.shape[axis] and k.shape[axis] > 1:
+                    m3 = np.roll(m, 1, axis=ma)  # every row keeps as many positions as before
             tk.copy_(torch.tensor(np.ascontiguousarray(k3)))
             tv.copy_(torch.tensor(np.ascontiguousarray(v3)))
-            again = mod(tq, tk, tv, tm).numpy()
+            tq.copy_(torch.tensor(np.ascontiguousarray(q3)))
+            if tm is not None:
+                tm.copy_(torch.tensor(np.ascontiguousarray(m3)))
+            again = mod(*_args(mod, tq, tk, tv, tm)).numpy()
         fresh_mod, _ = build_entry(case)
-        fresh = call(fresh_mod, q, k3, v3, m)
+        fresh = call(fresh_mod, q3, k3, v3, m3)
         d = np.abs(again - fresh)[defined] if again.shape == fresh.shape else np.array([np.inf])
         if d.size and not (d <= 1e-9).all():
             fails.append(("call-history", "same tensor objects overwritten in place between two calls: second result differs "
                           f"from a fresh module on the new contents by {float(np.nanmax(d))}"))
-        if not case.get("script"):
-            sd = {n_: p_.clone() for n_, p_ in mod.state_dict().items()}
-            if sd:
-                with torch.no_grad():
-                    for p_ in mod.parameters():
-                        p_.mul_(-0.5)
-                    mod(tq, tk, tv, tm)
-                    mod.load_state_dict(sd)
-                    back = mod(tq, tk, tv, tm).numpy()
-                d = np.abs(back - fresh)[defined] if back.shape == fresh.shape else np.array([np.inf])
-                if d.size and not (d <= 1e-9).all():
-                    fails.append(("call-history", "parameters changed and restored between calls: result differs from a fresh "
-                                  f"module by {float(np.nanmax(d))}"))
+        sd = {n_: p_.clone() for n_, p_ in mod.state_dict().items()}
+        if sd:
+            with torch.no_grad():
+                for p_ in mod.parameters():
+                    p_.mul_(-0.5)
+                mod(*_args(mod, tq, tk, tv, tm))
+                mod.load_state_dict(sd)
+                back = mod(*_args(mod, tq, tk, tv, tm)).numpy()
+            d = np.abs(back - fresh)[defined] if back.shape == fresh.shape else np.array([np.inf])
+            if d.size and not (d <= 1e-9).all():
+                fails.append(("call-history", "parameters changed and restored between calls: result differs from a fresh "
+                              f"module by {float(np.nanmax(d))}"))
     except Exception as e:
         fails.append(("call-history", "raised " + exc_kind(e) + ": " + str(e)[:80]))
+    # (7) the result does not depend on how the caller spells the same call (notes/AUDIT_GUIDE.md): memory layout of the
+    #     arguments, value being the very key object, keyword arguments, an explicit all-True mask for an omitted one,
+    #     key / value / mask expanded over the axes they broadcast along, float32, one batch element alone
+    alias = bool(case.get("alias_kv"))
+    pick = (rng_seed + len(case["q"]) + 3 * len(case["k"]) + 5 * len(case["v"]) + sum(case["kshape"])) % 3
+
+    def variant(name, fn, tol=1e-9):
+        try:
+            same(fn(), name, tol)
+        except Exception as e:
+            fails.append((name, "raised " + exc_kind(e) + ": " + str(e)[:80]))
+
+    variant("memory-layout", lambda: call(mod, q, k, v, m, alias=alias, layout=("t", "off", "step")[pick]))
+    if alias:
+        variant("value-is-key", lambda: call(mod, q, k, v.copy(), m))
+    if not case.get("kwcall") and not case.get("trace"):
+        variant("keyword-call", lambda: call(mod, q, k, v, m, kwargs=True))
+    if m is None and pick == 0 and not case.get("trace"):
+        variant("explicit-all-true-mask", lambda: call(mod, q, k, v, np.ones(eshape, dtype=bool)))
+    if pick == 1:
+        full = lambda x, shp: np.broadcast_to(x, tuple(shp) + x.shape[len(shp):]).copy()  # noqa: E731
+        variant("expanded-key-value-mask", lambda: call(mod, q, full(k, eshape), full(v, fshape),
+                                                        None if m is None else np.broadcast_to(m, eshape).copy()))
+    if pick == 2 and not case.get("big") and not case.get("trace"):
+        def f32():
+            m32, _ = build_entry(case)
+            return call(m32.float(), q, k, v, m, f32=True)
+        variant("float32", f32, 2e-4)
+    # one batch element alone = its slice of the batched result
+    cand = [b for b in range(len(fshape)) if b != axis and fshape[b] > 1]
+    if cand:
+        b = cand[(pick + len(case["v"])) % len(cand)]
+        i = (pick + len(case["q"])) % fshape[b]
+        sl = lambda x, ax: np.take(x, [i], axis=ax) if ax >= 0 and x.shape[ax] == fshape[b] else x  # noqa: E731
+        ob = b if b < axis else b - 1
+        try:
+            alone = call(mod, sl(q, ob), sl(k, b), sl(v, b), None if m is None else sl(m, b - (len(eshape) - m.ndim)))
+            exp1 = np.take(out, [i], axis=ob)
+            dfd = np.take(defined, [i], axis=ob)
+            if alone.shape != exp1.shape:
+                fails.append(("batch-element-alone", f"shape {alone.shape} vs {exp1.shape}"))
+            else:
+                d = np.abs(alone - exp1)[dfd]
+                if d.size and not (d <= 1e-9).all():
+                    fails.append(("batch-element-alone", f"element {i} of batch axis {b} alone differs from its slice of the "
+                                  f"batched result by {float(np.nanmax(d)) if not np.isnan(d).all() else 'nan'}"))
+        except Exception as e:
+            fails.append(("batch-element-alone", "raised " + exc_kind(e) + ": " + str(e)[:80]))
     # (5) multi-head = project (bias where requested), wrapped attention per head, concat, project
     if case["flavour"] == "mha":
         mp, mats = case["mha"], mha_mats(case)
@@ -519,10 +631,12 @@ def gen_case(rng, flavour=None, bias_combo=None, negdim=None, opts=None):
     axis = min(axis, rank - 2)
     T = opts.get("T") or rng.choice([1, 2, 2, 3, 3, 4, 5])
     base = [rng.choice([1, 2, 2, 3]) for _ in range(rank - 1)]
+    if opts.get("minb"):
+        base = [max(b, opts["minb"]) for b in base]
     if prod(base) > 18:
         base = [min(b, 2) for b in base]
     base[axis] = T
-    one = lambda b, pr: 1 if rng.random() < pr else b  # noqa: E731
+    one = lambda b, pr: 1 if rng.random() < (pr / 3 if opts.get("minb") else pr) else b  # noqa: E731
     kb = [b if i == axis else one(b, 0.25) for i, b in enumerate(base)]
     qb = [one(b, 0.3) for i, b in enumerate(base) if i != axis]
     qu = qb[:axis] + [1] + qb[axis:]
@@ -565,6 +679,18 @@ def gen_case(rng, flavour=None, bias_combo=None, negdim=None, opts=None):
         K = Q if flavour == "dot" else rng.choice([1, 2, 3])
         score = gen_score(rng, flavour, Q, K)
         qlo = 8
+    if opts.get("alias"):  # value is the key: same shape, same numbers (the value grid is twice as fine)
+        vb, D = list(kb), K
+        if flavour == "mha":
+            mha["vsize"] = K
+            if mha["dv"] is None:
+                mha["dv_eff"] = max(1, K // mha["H"])
+            if mha["osize"] is None:
+                mha["osize_eff"] = K
+            mha["WV"] = _ints(rng, mha["H"] * mha["dv_eff"] * K, -4, 4)
+            mha["bV"] = _ints(rng, mha["H"] * mha["dv_eff"], -4, 4)
+            mha["WC"] = _ints(rng, mha["osize_eff"] * mha["H"] * mha["dv_eff"], -4, 4)
+            mha["bC"] = _ints(rng, mha["osize_eff"], -4, 4)
     qshape, kshape, vshape = qb + [Q], kb + [K], vb + [D]
     dim = axis
     if negdim is None:
@@ -577,6 +703,8 @@ def gen_case(rng, flavour=None, bias_combo=None, negdim=None, opts=None):
             "v": _ints(rng, prod(vshape), -32, 32), "mask": None}
     if opts.get("zero_query"):
         case["q"] = [0] * prod(qshape)
+    if opts.get("alias"):
+        case["v"] = [x * (VD // QD) for x in case["k"]]
     if mb is not None:
         pk = rng.choice([0.35, 0.6, 0.6, 0.85])
         marr = np.array([rng.random() < pk for _ in range(prod(mb))], dtype=bool).reshape(mb)
@@ -621,6 +749,45 @@ def gen_script(rng, k):
             "rank": rng.choice([2, 3, 3, 4])}
     c = gen_case(rng, fl, negdim=(fl != "mha" and k % 4 == 1), opts=opts)
     c["script"] = True
+    return c
+
+
+def gen_negdim(rng, k):
+    """every single-head flavour with a NEGATIVE sequence dimension: every legal value (-rank+1 .. -2) for key ranks 3..5,
+    batch axes of size >= 2 next to the sequence axis (so that a softmax or a sum over a neighbouring axis shows), masks of
+    every layout with lower-rank and broadcast masks over-represented; a third enters through torch.jit.script"""
+    fl = SINGLE[k % 3]
+    rank = [3, 4, 4, 5][(k // 3) % 4]
+    axis = 1 + (k // 12) % (rank - 2)  # 1 .. rank-2  <->  dim = axis - rank in -rank+1 .. -2
+    mask = ["lowrank", "bcast", "lowrank", "full", "bcast", "none"][(k // 2) % 6]
+    for _ in range(20):
+        c = gen_case(rng, fl, negdim=True, opts={"rank": rank, "axis": axis, "mask": mask, "T": rng.choice([2, 3, 3, 4]),
+                                                 "minb": 2})
+        if c["dim"] < 0:
+            break
+    if k % 3 == 1:
+        c["script"] = True
+    if k % 7 == 3:
+        c["kwcall"] = True
+    return c
+
+
+def gen_alias(rng, k):
+    """value IS the key tensor (the call of the class documentation: attention(h, encoded, encoded, mask))"""
+    fl = ["dot", "general", "concat", "mha"][k % 4]
+    c = gen_case(rng, fl, negdim=(k % 5 == 0), opts={"alias": True})
+    c["alias_kv"] = True
+    if k % 3 == 2:
+        c["script"] = True
+    return c
+
+
+def gen_trace(rng, k):
+    """torch.jit.trace entry point, traced with size-1 example inputs as tests/test_attn.py does"""
+    fl = ["dot", "general", "concat", "mha", "mha"][k % 5]
+    c = gen_case(rng, fl, negdim=(fl != "mha" and k % 3 == 1),
+                 opts={"mask": rng.choice(["none", "full", "full", "bcast", "lowrank"]), "rank": rng.choice([2, 3, 3, 4])})
+    c["trace"] = True
     return c
 
 
@@ -855,6 +1022,22 @@ def run(chk, cases=None):
             c = gen_script(chk.rng, i)
             c["stream"] = "script-entry"
             cases.append(c)
+        # robustness-audit streams (notes/AUDIT_GUIDE.md); generator derived from the run's seed after the older streams
+        import random as _random
+        arng = _random.Random(chk.rng.getrandbits(64))
+        thorough = chk.tier == "thorough"
+        for i in range(432 if thorough else 72):
+            c = gen_negdim(arng, i)
+            c["stream"] = "negative-dim"
+            cases.append(c)
+        for i in range(160 if thorough else 28):
+            c = gen_alias(arng, i)
+            c["stream"] = "value-is-key"
+            cases.append(c)
+        for i in range(150 if thorough else 25):
+            c = gen_trace(arng, i)
+            c["stream"] = "trace-entry"
+            cases.append(c)
         chk.extra["exhaustive"] = False
         chk.extra["enumeration_scope"] = ("mha: all 16 bias combinations x 3 wrapped flavours x {no mask, mask}; single: 3 flavours x "
                                           "key rank 2..4(5) x every sequence axis x {no mask, full, broadcast, lower-rank mask} x "
@@ -871,7 +1054,15 @@ def run(chk, cases=None):
         chk.count("mask=" + ("none" if c.get("mshape") is None else
                              "lowrank" if len(c["mshape"]) < len(c["kshape"]) - 1 else "rank-e"))
         chk.count("outcome=" + ("raise" if r["out"] is None else "ok"))
-        chk.count("entry=" + ("script" if c.get("script") else "eager"))
+        chk.count("entry=" + ("script" if c.get("script") else "trace" if c.get("trace") else "eager") +
+                  (" keyword-call" if c.get("kwcall") else ""))
+        if c["dim"] < 0 and not c.get("malformed"):
+            chk.count("negative dim=%d of key rank %d, %s, mask %s" % (
+                c["dim"], len(c["kshape"]), c["flavour"],
+                "none" if c.get("mshape") is None else "lower-rank" if len(c["mshape"]) < len(c["kshape"]) - 1 else
+                "broadcast" if 1 in c["mshape"] else "full"))
+        if c.get("alias_kv"):
+            chk.count("value is key: " + c["flavour"])
         if c.get("big") and r["out"] is not None:
             try:
                 q_, k_, v_, m_ = arrays(c)
